@@ -226,16 +226,28 @@ let model_case_gen (dump_index : bool) (line : string) : string =
       (match ElfModel.elf_open rd (nat_of_int (Array.length files)) with
        | Codec.Err st -> "OPEN" ^ status_str st
        | Codec.Ok st0 ->
-           let pgsz = lkn c "pgsz" in
+           (* pointer size and page size as elfdump.c derives them: notes, then the machine *)
+           (match ElfGeomModel.elf_geometry rd st0 with
+            | Codec.Err e -> "OPEN" ^ status_str e
+            | Codec.Ok g ->
+           let opt = function Some x -> hex_of_n x | None -> "-" in
+           (match g.ElfGeomModel.eg_page_size with
+            | None ->
+                let r = { geom = Printf.sprintf "G:elf:%d:%s:-:?" (if st0.ElfModel.es_be then 0 else 1)
+                                   (opt g.eg_ptr_size);
+                          read = (fun _ _ _ _ -> (n_of_int 99, [])) } in
+                run_reqs r c.reqs
+            | Some pgsz ->
            let st = ref st0 in
            let r = { geom = Printf.sprintf "G:elf:%d:%s:%s:%s" (if st0.ElfModel.es_be then 0 else 1)
-                              (lk c "ptr") (hex_of_n pgsz) (hex_of_n (ElfModel.elf_max_pfn st0 (shift_of pgsz)));
+                              (opt g.eg_ptr_size) (hex_of_n pgsz)
+                              (hex_of_n (ElfModel.elf_max_pfn st0 (shift_of pgsz)));
                      read = (fun z a addr len ->
                        if a <> 'M' && a <> 'V' then (n_of_int 99, [])
                        else begin
                          let ((s, data), st') = ElfModel.elf_read rd pgsz z (a = 'V') !st addr len in
                          st := st'; (s, data) end) } in
-           run_reqs r c.reqs)
+           run_reqs r c.reqs)))
   | "lkcd" ->
       let (_, recs) = read_stream c.img in
       let tab = Hashtbl.create 64 in
